@@ -313,6 +313,9 @@ fn mix(seed: u64, a: u64, id: &str) -> u64 {
 /// Evaluate one case: panic capture + known-finding lookup.
 /// Returns (outcome-with-known-removed, raw failure if any, was_known)
 fn eval<P: Property>(case: &P::Case, known: &KnownFindings) -> (Outcome, Option<Failure>, bool) {
+    if std::env::var_os("VERIF_PRINT_CASES").is_some() {
+        eprintln!("CASE {}", serde_json::to_string(case).unwrap_or_default());
+    }
     let t0 = std::time::Instant::now();
     let r = catch(|| P::check(case));
     if let Some(ms) = std::env::var("VERIF_SLOW_MS").ok().and_then(|v| v.parse::<u128>().ok()) {
